@@ -12,7 +12,6 @@
 #include <opm/common/utility/numeric/calculateCellVol.hpp>
 #include <opm/input/eclipse/Deck/Deck.hpp>
 #include <opm/input/eclipse/Deck/DeckKeyword.hpp>
-#include <opm/input/eclipse/EclipseState/Grid/EclipseGrid.hpp>
 #include <opm/input/eclipse/EclipseState/Grid/GridDims.hpp>
 #include <opm/input/eclipse/EclipseState/Grid/MapAxes.hpp>
 #include <opm/input/eclipse/EclipseState/Grid/MinpvMode.hpp>
@@ -33,6 +32,20 @@
 #include <memory>
 #include <omp.h>
 #include <sstream>
+#include <optional>
+#include <set>
+#include <string>
+#include <tuple>
+#include <unordered_map>
+#include <unordered_set>
+#include <vector>
+
+// Fourth round: `createTOPSVector` is a private static member whose result reaches no public
+// query beyond its first layer (see design.d/C13.md); the harness calls it directly.  Access
+// specifiers change neither layout nor mangled names under the Itanium ABI.
+#define private public
+#include <opm/input/eclipse/EclipseState/Grid/EclipseGrid.hpp>
+#undef private
 
 using namespace Opm;
 namespace fs = std::filesystem;
@@ -1469,6 +1482,514 @@ void propHardCP(vh::PropLog& log, std::map<std::string, long>& st, vh::Rng& r, i
 
 } // namespace
 
+
+// ---- fourth round: TOPS for several layers, numerical-aquifer cells, bottom normal, validity ----
+struct TopsCase {
+    Block b; V dzDeck; V topsDeck;                 // deck units
+    std::string text; bool inclined = false;
+    long snapped = 0, gaps = 0, overlaps = 0, nearTol = 0;
+};
+
+// TOPS with n0 values: the first layer as in `b`, lower layers per layer/cell one of: exactly the
+// stack (in deck units), the stack +- less than the tolerance, +- just around the tolerance, a
+// real gap, an overlap.  n0: nx*ny (first layer only), whole layers, a partial layer, all cells,
+// more than all cells (the parser accepts it), fewer than nx*ny (throws).
+TopsCase genTops(vh::Rng& r, int maxn, bool allowGaps, bool allowShort) {
+    TopsCase c;
+    c.b = genBlock(r, maxn, r.coin(), r.coin());
+    Block& b = c.b;
+    if (r.coin(1, 3)) b.nz = std::max(b.nz, 3);
+    if ((int) b.dzv.size() < b.nz) { while ((int) b.dzv.size() < b.nz) b.dzv.push_back(rlen(r, 0.5, 30)); b.dz.clear(); for (int k = 0; k < b.nz; ++k) for (int n = 0; n < b.nx * b.ny; ++n) b.dz.push_back(r.coin() ? b.dzv[k] : rlen(r, 0.5, 30)); }
+    const int area = b.nx * b.ny, vol = area * b.nz;
+    const double L = unitSys(b.unit).to_si(UnitSystem::measure::length, 1.0);
+    c.dzDeck = b.dz;
+    int n0;
+    switch (r.range(0, allowShort ? 6 : 5)) {
+    case 0: n0 = area; break;
+    case 1: n0 = vol; break;
+    case 2: n0 = area * r.range(1, b.nz); break;
+    case 3: n0 = area + (int) r.below(vol - area + 1); break;
+    case 4: n0 = vol; break;
+    case 5: n0 = vol + r.range(1, 3); break;
+    default: n0 = (int) r.below(area); break;          // too short: throws
+    }
+    V t(std::max(n0, vol) + 4, 0.0);
+    for (int n = 0; n < area; ++n) t[n] = b.tops[n];
+    const int layerMode = r.range(0, 3);               // 0: all stacked, 1: per layer, 2: per cell, 3: mostly snapped
+    std::vector<int> lm(b.nz + 2, 0);
+    for (auto& m : lm) m = r.range(0, allowGaps ? 5 : 2);
+    for (int n = area; n < (int) t.size(); ++n) {
+        const double stack = n - area < vol ? t[n - area] + b.dz[n - area] : t[n - area] + 1.0;
+        int mode = layerMode == 0 ? 0 : layerMode == 1 ? lm[std::min(n / area, b.nz + 1)] : layerMode == 2 ? r.range(0, allowGaps ? 5 : 2) : (r.coin(1, 6) ? r.range(0, allowGaps ? 5 : 2) : 0);
+        switch (mode) {
+        case 0: t[n] = stack; ++c.snapped; break;
+        case 1: t[n] = stack + (r.unit() - 0.5) * 1.6e-6 / L; ++c.snapped; break;             // |.| < 0.8e-6 m
+        case 2: t[n] = stack + (r.coin() ? 1 : -1) * (r.coin() ? 0.99e-6 : 0.9999999e-6) / L; ++c.nearTol; break;   // just inside
+        case 3: t[n] = stack + (r.coin() ? 1 : -1) * (r.coin() ? 1.01e-6 : 1.0000001e-6) / L; ++c.nearTol; ++c.gaps; break;   // just outside
+        case 4: t[n] = stack + rlen(r, 0.01, 25); ++c.gaps; break;
+        default: t[n] = stack - rlen(r, 0.01, 0.45) * (n - area < vol ? b.dz[n - area] : 1.0); ++c.overlaps; break;
+        }
+    }
+    t.resize(n0);
+    c.topsDeck = t;
+    V dx = scatter(b, 0), dy = scatter(b, 1);
+    if (r.coin(1, 4)) { for (auto& x : dx) x *= 1.0 + 0.2 * r.unit(); for (auto& y : dy) y *= 1.0 + 0.2 * r.unit(); c.inclined = true; }
+    c.text = deckHead(b.nx, b.ny, b.nz, b.unit) + kwData("DX", dx) + kwData("DY", dy) + kwData("DZ", b.dz) + kwData("TOPS", t);
+    return c;
+}
+
+void emitTops(vh::Sink& sink, vh::Rng& r, int maxn) {
+    TopsCase c = genTops(r, maxn, true, true);
+    const Block& b = c.b;
+    Deck deck = parse(c.text);
+    const V DZ = deck["DZ"].back().getSIDoubleData();
+    const V IN = deck["TOPS"].back().getSIDoubleData();
+    const std::array<int, 3> dims{ b.nx, b.ny, b.nz };
+    std::string a;
+    try { a = hexV(EclipseGrid::createTOPSVector(dims, DZ, deck)); } catch (const std::exception&) { a = "err"; }
+    sink.emit("gridt.tops " + dims3(b.nx, b.ny, b.nz) + " " + std::to_string(IN.size()) + " " + hexV(DZ) + " " + hexV(IN), a);
+    sink.count("tops"); sink.count(a == "err" ? "tops.throws" : IN.size() == size_t(b.nx * b.ny) ? "tops.first_layer_only" : IN.size() >= DZ.size() ? "tops.all_layers" : "tops.some_layers");
+    sink.count("tops.values.snapped", c.snapped); sink.count("tops.values.gap", c.gaps); sink.count("tops.values.overlap", c.overlaps); sink.count("tops.values.near_tolerance", c.nearTol);
+    std::string g2;
+    try {
+        EclipseGrid g(deck);
+        g2 = hexV(g.getCOORD()) + " " + hexV(g.getZCORN()) + " " + std::to_string(g.getZcornFixed());
+    } catch (const std::exception&) { g2 = "err"; }
+    sink.emit("gridt.deck " + dims3(b.nx, b.ny, b.nz) + " " + std::to_string(IN.size()) + " " + hexV(deck["DX"].back().getSIDoubleData()) + " " + hexV(deck["DY"].back().getSIDoubleData())
+              + " " + hexV(DZ) + " " + hexV(IN), g2);
+    sink.count("tops.deck");
+}
+
+struct AquRec { int i, j, k; bool hasDepth; double depth; };
+struct AquCase { Block b; std::vector<int> act; std::vector<AquRec> recs; std::string text, twinText; };
+
+AquCase genAqu(vh::Rng& r, int maxn) {
+    AquCase c;
+    c.b = genBlock(r, maxn, r.coin(), false);
+    const Block& b = c.b;
+    c.act = genActnum(r, b.nx * b.ny * b.nz);
+    const int nrec = r.range(1, 5);
+    for (int n = 0; n < nrec; ++n) {
+        AquRec q;
+        if (n > 0 && r.coin(1, 3)) { q = c.recs[r.below(c.recs.size())]; }            // the same cell again
+        else { q.i = r.range(0, b.nx - 1); q.j = r.range(0, b.ny - 1); q.k = r.range(0, b.nz - 1); }
+        q.hasDepth = r.coin(2, 3); q.depth = rlen(r, 1000, 4000);
+        c.recs.push_back(q);
+    }
+    std::ostringstream aq;
+    const bool split = c.recs.size() > 1 && r.coin(1, 3);                                 // two AQUNUM keywords
+    aq << "AQUNUM\n";
+    for (size_t n = 0; n < c.recs.size(); ++n) {
+        const AquRec& q = c.recs[n];
+        if (split && n == c.recs.size() / 2) aq << "/\n\nAQUNUM\n";
+        aq << " " << (n + 1) << " " << q.i + 1 << " " << q.j + 1 << " " << q.k + 1 << " 1000.0 100.0 0.25 100.0 " << (q.hasDepth ? num(q.depth) : std::string("1*")) << " /\n";
+    }
+    aq << "/\n\n";
+    const bool withAct = r.coin(3, 4);
+    c.twinText = deckDTops(b, true, withAct ? kwInt("ACTNUM", c.act) : std::string());
+    c.text = deckDTops(b, true, (withAct ? kwInt("ACTNUM", c.act) : std::string()) + aq.str());
+    if (!withAct) c.act.assign(c.act.size(), 1);
+    return c;
+}
+
+std::string aquRecStr(const AquCase& c, const Deck& deck) {
+    // the SI depth as the code reads it from the parsed deck
+    std::string s; size_t n = 0;
+    for (const auto* kw : deck.getKeywordList("AQUNUM"))
+        for (const auto& rec : *kw) {
+            const AquRec& q = c.recs[n++];
+            const size_t g = q.i + c.b.nx * (q.j + q.k * c.b.ny);
+            const auto& item = rec.getItem("DEPTH");
+            if (!s.empty()) s += ",";
+            s += std::to_string(g) + ":" + (item.defaultApplied(0) ? std::string("-") : vh::hexF64(item.getSIDouble(0)));
+        }
+    return s;
+}
+
+std::string actMapsStr(const EclipseGrid& g) {
+    std::string a2g = g.getActiveMap().empty() ? "" : joinI(g.getActiveMap());
+    return joinI(g.getACTNUM()) + "|" + std::to_string(g.getNumActive()) + "|" + g2aStr(g) + "|" + a2g;
+}
+
+V depthsOf(const EclipseGrid& g, bool byIJK = false) {
+    V d;
+    for (size_t gi = 0; gi < g.getCartesianSize(); ++gi) {
+        if (byIJK) { const auto q = g.getIJK(gi); d.push_back(g.getCellDepth(q[0], q[1], q[2])); }
+        else d.push_back(g.getCellDepth(gi));
+    }
+    return d;
+}
+
+void emitAqu(vh::Sink& sink, vh::Rng& r, int maxn) {
+    AquCase c = genAqu(r, maxn);
+    Deck deck = parse(c.text);
+    EclipseGrid g(deck), twin(parse(c.twinText));
+    const std::string recs = aquRecStr(c, deck);
+    sink.emit("gridt.aq " + recs + " " + joinI(twin.getACTNUM()), actMapsStr(g));
+    sink.emit("gridt.aqdepth " + recs + " " + hexV(depthsOf(twin)), hexV(depthsOf(g)));
+    sink.emit("gridt.aqdepth " + recs + " " + hexV(depthsOf(twin, true)), hexV(depthsOf(g, true)));      // getCellDepth(i, j, k)
+    sink.count("aqu"); sink.count("aqu.records", (long) c.recs.size());
+    std::vector<int> cur = g.getACTNUM();
+    for (int t = 0; t < 3; ++t) {
+        std::vector<int> mask = t == 0 ? std::vector<int>(cur.size(), 0) : nextMask(r, cur);
+        const int how = r.range(0, 2);
+        if (how == 0) { g.resetACTNUM(mask); sink.emit("gridt.aq " + recs + " " + joinI(mask), actMapsStr(g)); }
+        else if (how == 1) { EclipseGrid h(g, mask); sink.emit("gridt.aq " + recs + " " + joinI(mask), actMapsStr(h)); sink.emit("gridt.aqdepth " + recs + " " + hexV(depthsOf(twin)), hexV(depthsOf(h))); g = h; }
+        else { V z = g.getZCORN(); EclipseGrid h(g, z.data(), mask); sink.emit("gridt.aq " + recs + " " + joinI(mask), actMapsStr(h)); g = h; }
+        cur = g.getACTNUM();
+        sink.count("aqu.reset");
+    }
+}
+
+void emitNormal(vh::Sink& sink, vh::Rng& r, int maxn) {
+    CP cp = genHardCP(r, maxn);
+    EclipseGrid g(std::array<int, 3>{ cp.nx, cp.ny, cp.nz }, cp.coord, cp.zcorn, nullptr);
+    for (int t = 0; t < 4; ++t) {
+        const size_t gi = r.below(g.getCartesianSize());
+        A8 X, Y, Z; corners(g, gi, X, Y, Z);
+        const auto [cc, bc, nn] = g.getCellAndBottomCenterNormal(gi);
+        std::string a;
+        for (const auto& v : { cc, bc, nn }) for (double d : v) a += vh::hexF64(d);
+        sink.emit("gridt.normal " + hexA(X) + " " + hexA(Y) + " " + hexA(Z), a);
+        sink.count("normal");
+    }
+    // validity: ordinary, thin (around 1e-4 length units), and "infinite" (1e20 sentinel) cells
+    for (int t = 0; t < 3; ++t) {
+        const int unit = r.range(0, 2);
+        const UnitSystem us = unitSys(unit);
+        const double L = us.to_si(UnitSystem::measure::length, 1.0);
+        const int kind = r.range(0, 3);
+        std::unique_ptr<EclipseGrid> g2;
+        if (kind == 1) {
+            const double hs[4] = { 0.5e-4, 1.0e-4, 1.0000001e-4, 2e-4 };
+            g2 = std::make_unique<EclipseGrid>(2, 1, 2, rlen(r, 1, 50), rlen(r, 1, 50), hs[r.range(0, 3)] * L, r.coin() ? 0.0 : rlen(r, 0, 3000));
+        } else {
+            CP q = genPlanarCP(r, 2, false, false, false);
+            if (kind == 2) q.zcorn[r.below(q.zcorn.size())] = (r.coin() ? 1.0e20 : 0.9e20) * L;
+            if (kind == 3) q.coord[r.below(q.coord.size())] = r.coin() ? -2.0e20 * L : 1e19 * L;
+            g2 = std::make_unique<EclipseGrid>(std::array<int, 3>{ q.nx, q.ny, q.nz }, q.coord, q.zcorn, nullptr);
+        }
+        for (size_t gi = 0; gi < g2->getCartesianSize(); ++gi) {
+            A8 X, Y, Z; corners(*g2, gi, X, Y, Z);
+            const bool v = g2->isValidCellGeomtry(gi, us);
+            sink.emit("gridt.valid " + vh::hexF64(us.to_si(UnitSystem::measure::length, 1.0e+20f)) + " " + vh::hexF64(us.to_si(UnitSystem::measure::length, 1.0e-4)) + " " + hexA(X) + " " + hexA(Y) + " " + hexA(Z),
+                      v ? "1" : "0");
+            sink.count(v ? "valid.yes" : "valid.no");
+        }
+    }
+}
+
+// When true, a DX/DY/DZ/TOPS deck whose TOPS keeps a gap / overlap of 1e-6 m or more between two
+// layers is reported as a property violation under the key `grid.tops.gap_ignored` (the real grid
+// stacks the lower layer on the upper one; see design.d/C13.md, finding 11).  Off until the main
+// session records the finding; the counters `tops.gap_ignored*` in prop_stats.json are always kept.
+constexpr bool kReportTopsGap = false;
+
+void propTops(vh::PropLog& log, std::map<std::string, long>& st, vh::Rng& r, int maxn, bool& gapReported) {
+    TopsCase c = genTops(r, maxn, true, true);
+    const Block& b = c.b;
+    const int area = b.nx * b.ny, vol = area * b.nz;
+    Deck deck = parse(c.text);
+    const V DZ = deck["DZ"].back().getSIDoubleData();
+    const V IN = deck["TOPS"].back().getSIDoubleData();
+    const V DX = deck["DX"].back().getSIDoubleData(), DY = deck["DY"].back().getSIDoubleData();
+    const size_t n0 = IN.size();
+    const std::string ctx = std::string(unitKw(b.unit)) + " " + dims3(b.nx, b.ny, b.nz) + " n0=" + std::to_string(n0) + " DZ=" + hexV(DZ) + " TOPS=" + hexV(IN);
+    const double tol = 1e-6;
+    bool ok = true; std::string why;
+    st["tops"]++;
+    // (A) the TOPS vector: given values honoured, layers without a value contiguous
+    V T; bool threw = false;
+    try { T = EclipseGrid::createTOPSVector({ b.nx, b.ny, b.nz }, DZ, deck); } catch (const std::exception&) { threw = true; }
+    bool gridThrew = false;
+    std::unique_ptr<EclipseGrid> g;
+    try { g = std::make_unique<EclipseGrid>(deck); } catch (const std::exception&) { gridThrew = true; }
+    if ((int) n0 < area) {
+        st["tops.too_short"]++;
+        if (!threw || !gridThrew) log.fail("tops.short", ctx + " fewer TOPS values than nx*ny accepted"); else log.ok();
+        return;
+    }
+    if (threw || gridThrew) { log.fail("tops.throws", ctx + " a TOPS keyword covering the first layer was rejected"); return; }
+    if ((int) T.size() != vol) { ok = false; why = "result has " + std::to_string(T.size()) + " entries"; }
+    bool retained = false;            // some given value keeps a gap / overlap of >= tol
+    bool overlap = false;             // ... an overlap (the given top lies above the bottom of the layer above)
+    for (int t = 0; t < vol && ok; ++t) {
+        if (t < area) { if (!sameBits(T[t], IN[t])) { ok = false; why = "first layer changed at " + std::to_string(t); } continue; }
+        const double next = T[t - area] + DZ[t - area];
+        if (t >= (int) n0) { if (!sameBits(T[t], next)) { ok = false; why = "layer without TOPS not contiguous with the layer above at " + std::to_string(t) + ": " + num(T[t]) + " vs " + num(next); } continue; }
+        if (!(std::fabs(T[t] - IN[t]) < tol)) { ok = false; why = "given TOPS not honoured at " + std::to_string(t) + ": " + num(T[t]) + " for " + num(IN[t]); }
+        else if (std::fabs(next - IN[t]) < tol) { if (!sameBits(T[t], next)) { ok = false; why = "given TOPS within the tolerance of the layer above but not made contiguous at " + std::to_string(t) + ": " + num(T[t]) + " vs " + num(next); } st["tops.snapped"]++; }
+        else { if (!sameBits(T[t], IN[t])) { ok = false; why = "gap/overlap of " + num(IN[t] - next) + " not retained at " + std::to_string(t) + ": " + num(T[t]) + " for " + num(IN[t]); } retained = true; st["tops.retained"]++; if (IN[t] < next) overlap = true; }
+    }
+    if (!ok) { log.fail("tops.vector", ctx + " " + why); return; }
+    log.ok();
+    // (B) the grid built from the deck against an independent reference: per column the cell tops
+    // are the first-layer value stacked with DZ wherever nothing else was (validly) given
+    if (c.inclined) { st["tops.inclined_skipped"]++; return; }
+    // overlapping layers have no consistent box description (the honouring ZCORN would be non-monotone and
+    // be clamped by fixupZCORN): only the vector is checked for them
+    if (overlap) { st["tops.overlap_decks_vector_only"]++; return; }
+    V refTop(vol);
+    for (int col = 0; col < area; ++col) {
+        double z = IN[col];
+        for (int k = 0; k < b.nz; ++k) {
+            const int t = col + k * area;
+            if (k > 0 && t < (int) n0 && !(std::fabs(z - IN[t]) < tol)) z = IN[t];       // a retained gap: the given value
+            refTop[t] = z;
+            z += DZ[t];
+        }
+    }
+    const double scale = std::fabs(refTop[vol - 1]) + 1.0;
+    long bad = 0; std::string firstBad;
+    for (int t = 0; t < vol; ++t) {
+        const auto ijk = g->getIJK(t);
+        CellQ q = query(*g, t);
+        const double dx = DX[t], dy = DY[t], dz = DZ[t];
+        if (!close(q.vol, dx * dy * dz, 1e-9)) { ok = false; why = "volume != DX*DY*DZ at cell " + std::to_string(t); break; }
+        if (!close(q.thick, dz, 1e-9, 1e-12 * scale)) { ok = false; why = "thickness != DZ at cell " + std::to_string(t); break; }
+        if (!close(q.depth, refTop[t] + dz / 2, 0, 1e-11 * scale)) {
+            if (!retained) { ok = false; why = "depth " + num(q.depth) + " != TOPS + DZ/2 = " + num(refTop[t] + dz / 2) + " at cell " + std::to_string(t); break; }
+            if (bad++ == 0) firstBad = "cell (" + dims3(ijk[0], ijk[1], ijk[2]) + "): depth " + num(q.depth) + ", TOPS + DZ/2 = " + num(refTop[t] + dz / 2);
+        }
+        if (t < (int) n0 && !retained && !(std::fabs(g->getZCORN()[zind(b.nx, b.ny, ijk[0], ijk[1], ijk[2], 0)] - IN[t]) < tol)) { ok = false; why = "cell top differs from the given TOPS by 1e-6 m or more at cell " + std::to_string(t); break; }
+        if (!retained && t >= area) {
+            // contiguity in the geometry: top of (i,j,k) is bit-equal to the bottom of (i,j,k-1)
+            for (int cc = 0; cc < 4; ++cc)
+                if (!sameBits(g->getZCORN()[zind(b.nx, b.ny, ijk[0], ijk[1], ijk[2], cc)], g->getZCORN()[zind(b.nx, b.ny, ijk[0], ijk[1], ijk[2] - 1, cc + 4)])) { ok = false; why = "ZCORN not contiguous at cell " + std::to_string(t); }
+        }
+    }
+    st["tops.grid"]++;
+    if (!ok) { log.fail("tops.grid", ctx + " " + why); return; }
+    if (bad > 0) {
+        st["tops.gap_ignored_decks"]++; st["tops.gap_ignored_cells"] += bad;
+        if (kReportTopsGap && !gapReported) { gapReported = true; log.fail("grid.tops.gap_ignored", ctx + " " + firstBad + " (" + std::to_string(bad) + " cells)"); return; }
+    }
+    log.ok();
+}
+
+void propAqu(vh::PropLog& log, std::map<std::string, long>& st, vh::Rng& r, int maxn, const std::string& tmp, long& fileNo) {
+    AquCase c = genAqu(r, maxn);
+    const Block& b = c.b;
+    st["aqu"]++;
+    bool ok = true; std::string why;
+    try {
+        EclipseGrid g(parse(c.text)), twin(parse(c.twinText));
+        const double L = unitSys(b.unit).to_si(UnitSystem::measure::length, 1.0);
+        std::map<size_t, double> depth; std::set<size_t> aq;
+        for (const auto& q : c.recs) { const size_t gi = q.i + b.nx * (q.j + q.k * b.ny); aq.insert(gi); if (q.hasDepth) depth[gi] = q.depth * L; }
+        auto check = [&](const EclipseGrid& x, const std::vector<int>& mask, const std::string& tag) {
+            size_t rank = 0;
+            for (size_t gi = 0; gi < mask.size() && ok; ++gi) {
+                const bool isAq = aq.count(gi) > 0;
+                const int want = isAq ? 1 : mask[gi];
+                if (x.getACTNUM()[gi] != want) { ok = false; why = tag + ": ACTNUM[" + std::to_string(gi) + "] = " + std::to_string(x.getACTNUM()[gi]) + (isAq ? " at an aquifer cell" : " differs from the mask"); break; }
+                if (x.cellActive(gi) != (want > 0)) { ok = false; why = tag + ": cellActive(" + std::to_string(gi) + ")"; break; }
+                if (want > 0) {
+                    size_t a = 0;
+                    try { a = x.activeIndex(gi); } catch (const std::exception&) { ok = false; why = tag + ": activeIndex threw on an active cell " + std::to_string(gi); break; }
+                    if (a != rank || x.getGlobalIndex(a) != gi) { ok = false; why = tag + ": active numbering at cell " + std::to_string(gi); break; }
+                    ++rank;
+                } else {
+                    bool threw = false; try { (void) x.activeIndex(gi); } catch (const std::exception&) { threw = true; }
+                    if (!threw) { ok = false; why = tag + ": activeIndex accepted the inactive cell " + std::to_string(gi); break; }
+                }
+                // depth: AQUNUM value when given, else the geometry; everything else is the geometry of the twin
+                const auto it = depth.find(gi);
+                if (it != depth.end()) { if (!close(x.getCellDepth(gi), it->second, 1e-13)) { ok = false; why = tag + ": depth of aquifer cell " + std::to_string(gi) + " = " + num(x.getCellDepth(gi)) + ", AQUNUM says " + num(it->second); break; } }
+                else if (!sameBits(x.getCellDepth(gi), twin.getCellDepth(gi))) { ok = false; why = tag + ": depth of cell " + std::to_string(gi) + " differs from the grid without AQUNUM"; break; }
+                { const auto q = x.getIJK(gi); if (!sameBits(x.getCellDepth(q[0], q[1], q[2]), x.getCellDepth(gi))) { ok = false; why = tag + ": getCellDepth(i,j,k) != getCellDepth(g) at cell " + std::to_string(gi); break; } }
+                if (!sameBits(x.getCellVolume(gi), twin.getCellVolume(gi)) || x.getCellCenter(gi) != twin.getCellCenter(gi)) { ok = false; why = tag + ": volume/centre of cell " + std::to_string(gi) + " differs from the grid without AQUNUM"; break; }
+            }
+            if (ok && x.getNumActive() != rank) { ok = false; why = tag + ": getNumActive"; }
+        };
+        check(g, twin.getACTNUM(), "deck");
+        std::vector<int> cur = g.getACTNUM();
+        for (int t = 0; t < 4 && ok; ++t) {
+            std::vector<int> mask = t == 0 ? std::vector<int>(cur.size(), 0) : nextMask(r, cur);
+            const int how = r.range(0, 3);
+            if (how == 0) { g.resetACTNUM(mask); check(g, mask, "resetACTNUM(mask)"); }
+            else if (how == 1) { EclipseGrid h(g, mask); check(h, mask, "EclipseGrid(src, mask)"); g = h; }
+            else if (how == 2) { V z = g.getZCORN(); EclipseGrid h(g, z.data(), mask); check(h, mask, "EclipseGrid(src, zcorn, mask)"); g = h; }
+            else { g.activeVolume(); g.resetACTNUM(mask.data()); check(g, mask, "activeVolume(); resetACTNUM(ptr)");
+                   const auto& av = g.activeVolume();
+                   for (size_t a = 0; a < av.size() && ok; ++a) if (!sameBits(av[a], twin.getCellVolume(g.getGlobalIndex(a)))) { ok = false; why = "activeVolume()[" + std::to_string(a) + "] after the reset"; } }
+            if (!ok) why += " mask=" + joinI(mask);
+            cur = g.getACTNUM();
+            st["aqu.reset"]++;
+        }
+        if (ok) {   // EGRID: activity (with the forced cells) survives; the depth override has no EGRID representation
+            const std::string p = tmp + "/AQ" + std::to_string(fileNo++) + ".EGRID";
+            g.save(p, false, {}, unitSys(b.unit));
+            EclipseGrid h(p);
+            if (h.getACTNUM() != g.getACTNUM() || h.getActiveMap() != g.getActiveMap()) { ok = false; why = "save/load: ACTNUM or active map changed"; }
+            for (const auto& kv : depth) if (!close(h.getCellDepth(kv.first), kv.second, 1e-6)) { st["aqu.reload_depth_override_lost"]++; break; }
+        }
+    } catch (const std::exception& e) { ok = false; why = std::string("exception ") + typeid(e).name(); }
+    if (ok) log.ok(); else log.fail("aquifer", std::string(unitKw(b.unit)) + " " + dims3(b.nx, b.ny, b.nz) + " " + why + " deck=" + vh::hex(c.text));
+}
+
+void propNormal(vh::PropLog& log, std::map<std::string, long>& st, vh::Rng& r, int maxn) {
+    // planar-faced grids: the normal is the exact area vector of the bottom face
+    CP cp = r.coin() ? genPlanarCP(r, maxn, r.coin(), r.coin(), false) : genHardCP(r, maxn);
+    // wedge cells: one to three of the four vertical edges pinched (bottom corner pulled up to the top corner)
+    long wedges = 0;
+    for (int k = 0; k < cp.nz; ++k) for (int j = 0; j < cp.ny; ++j) for (int i = 0; i < cp.nx; ++i) if (r.coin(1, 5)) {
+        const int keep = r.range(0, 3);
+        for (int c = 0; c < 4; ++c) if (c != keep && r.coin(2, 3)) cp.zcorn[zind(cp.nx, cp.ny, i, j, k, c + 4)] = cp.zcorn[zind(cp.nx, cp.ny, i, j, k, c)];
+        ++wedges;
+    }
+    st["normal.wedge_cells"] += wedges;
+    EclipseGrid g(std::array<int, 3>{ cp.nx, cp.ny, cp.nz }, cp.coord, cp.zcorn, nullptr);
+    bool ok = true; std::string why;
+    {   // isValidCellGeomtry against its statement: all corner coordinates below 1e20 length units and the
+        // longest of the four vertical edges longer than 1e-4 length units
+        const int unit = r.range(0, 2);
+        const UnitSystem us = unitSys(unit);
+        const double L = us.to_si(UnitSystem::measure::length, 1.0);
+        for (size_t gi = 0; gi < g.getCartesianSize(); ++gi) {
+            A8 X, Y, Z; corners(g, gi, X, Y, Z);
+            double longest = Z[4] - Z[0];
+            for (int c = 1; c < 4; ++c) longest = std::max(longest, Z[c + 4] - Z[c]);
+            const bool want = longest > 1.0e-4 * L;
+            if (std::fabs(longest - 1.0e-4 * L) < 1e-12 * L) continue;
+            if (g.isValidCellGeomtry(gi, us) != want) { log.fail("cell_validity", std::string(unitKw(unit)) + " " + dims3(cp.nx, cp.ny, cp.nz) + " cell=" + std::to_string(gi) + " longest vertical edge " + num(longest) + " m: isValidCellGeomtry = " + (want ? "false" : "true") + " coord=" + hexV(cp.coord) + " zcorn=" + hexV(cp.zcorn)); ok = false; break; }
+            st[want ? "valid.cells.yes" : "valid.cells.no"]++;
+        }
+        if (!ok) return;
+    }
+    for (size_t gi = 0; gi < g.getCartesianSize() && ok; ++gi) {
+        A8 X, Y, Z; corners(g, gi, X, Y, Z);
+        const auto [cc, bc, nn] = g.getCellAndBottomCenterNormal(gi);
+        const auto ctr = g.getCellCenter(gi);
+        const double ext = std::fabs(X[7] - X[4]) + std::fabs(Y[7] - Y[4]) + std::fabs(Z[7] - Z[4]) + std::fabs(X[6] - X[5]) + std::fabs(Y[6] - Y[5]) + 1e-300;
+        const double mag = std::fabs(X[4]) + std::fabs(Y[4]) + std::fabs(Z[4]) + ext;
+        if (cc != ctr) { ok = false; why = "cell centre differs from getCellCenter"; }
+        const double bx = (X[4] + X[5] + X[6] + X[7]) / 4, by = (Y[4] + Y[5] + Y[6] + Y[7]) / 4, bz = (Z[4] + Z[5] + Z[6] + Z[7]) / 4;
+        if (!close(bc[0], bx, 0, 1e-13 * mag) || !close(bc[1], by, 0, 1e-13 * mag) || !close(bc[2], bz, 0, 1e-13 * mag)) { ok = false; why = "bottom centre is not the mean of corners 4..7"; }
+        // area vector by the shoelace (Newell) formula over the loop 4-5-7-6, computed relative to corner 4
+        const int loop[4] = { 4, 5, 7, 6 };
+        double n[3] = { 0, 0, 0 };
+        for (int e = 0; e < 4; ++e) {
+            const int p = loop[e], q = loop[(e + 1) % 4];
+            const double px = X[p] - X[4], py = Y[p] - Y[4], pz = Z[p] - Z[4], qx = X[q] - X[4], qy = Y[q] - Y[4], qz = Z[q] - Z[4];
+            n[0] += 0.5 * (py * qz - pz * qy); n[1] += 0.5 * (pz * qx - px * qz); n[2] += 0.5 * (px * qy - py * qx);
+        }
+        // the code subtracts a centre with absolute coordinates: allow rounding of size mag * ext
+        const double slack = 4e-15 * mag * ext + 1e-12 * (std::fabs(n[0]) + std::fabs(n[1]) + std::fabs(n[2]));
+        for (int a = 0; a < 3 && ok; ++a) if (!close(nn[a], n[a], 0, slack)) { ok = false; why = "normal[" + std::to_string(a) + "] = " + num(nn[a]) + ", area vector of the bottom face = " + num(n[a]); }
+        if (ok && !(nn[2] >= -slack)) { ok = false; why = "normal does not point downwards"; }
+        if (!ok) why += " cell=" + std::to_string(gi);
+    }
+    st["normal"]++; st["normal.cells"] += (long) g.getCartesianSize();
+    if (ok) log.ok(); else log.fail("bottom_normal", dims3(cp.nx, cp.ny, cp.nz) + " " + why + " coord=" + hexV(cp.coord) + " zcorn=" + hexV(cp.zcorn));
+    // box grids: (0, 0, dx*dy), validity by thickness
+    {
+        const int unit = r.range(0, 2);
+        const UnitSystem us = unitSys(unit);
+        const double L = us.to_si(UnitSystem::measure::length, 1.0);
+        const double dx = rlen(r, 1, 100), dy = rlen(r, 1, 100);
+        const int kind = r.range(0, 3);
+        const double dzU = kind == 0 ? rlen(r, 0.5, 20) : kind == 1 ? 1.5e-4 : kind == 2 ? 0.5e-4 : 0.0;     // in deck length units
+        EclipseGrid bg(2, 2, 2, dx, dy, dzU * L, rlen(r, 0, 3000));
+        bool ok2 = true; std::string why2;
+        for (size_t gi = 0; gi < 8 && ok2; ++gi) {
+            const auto [cc, bc, nn] = bg.getCellAndBottomCenterNormal(gi);
+            if (!close(nn[2], dx * dy, 1e-9) || std::fabs(nn[0]) > 1e-9 * dx * dy || std::fabs(nn[1]) > 1e-9 * dx * dy) { ok2 = false; why2 = "box normal != (0,0,dx*dy)"; }
+            const bool v = bg.isValidCellGeomtry(gi, us);
+            if (v != (kind <= 1)) { ok2 = false; why2 = std::string("isValidCellGeomtry = ") + (v ? "true" : "false") + " for thickness " + num(dzU) + " " + unitKw(unit) + " length units"; }
+        }
+        st["valid"]++;
+        if (ok2) log.ok(); else log.fail("cell_validity", std::string(unitKw(unit)) + " dx=" + num(dx) + " dy=" + num(dy) + " dz=" + num(dzU * L) + " " + why2);
+    }
+}
+
+
+// ---- P16: pillars leaning in one horizontal direction only ------------------------------------
+// Straight pillars from (x_i, y_j, z0) to (x_i*fx + sx*H, y_j*fy + sy*H, z0 + H), flat layers.  Each
+// of the two directions is independently: vertical (f = 1, s = 0: bottom coordinate *exactly* the top
+// coordinate), sheared (s != 0), fanning (f != 1), or both.  Every cell face is planar (the face
+// i = const is the plane x = x_i (1 + (fx-1) t) + sx H t, t = (z - z0)/H), the horizontal section at
+// depth z is the rectangle wx(z) x wy(z), so volume, corners, centre and depth are known in closed
+// form from the construction.  The grid is also saved and the corners re-read through
+// EclIO::EGrid::getCellCorners, which has its own pillar interpolation.
+void propLean(vh::PropLog& log, std::map<std::string, long>& st, vh::Rng& r, int maxn, const std::string& tmp, long& fileNo) {
+    const int nx = r.range(1, maxn), ny = r.range(1, maxn), nz = r.range(1, maxn);
+    const int mx = r.range(0, 3), my = r.range(0, 3);            // 0 vertical, 1 sheared, 2 fanning, 3 both
+    auto pick = [&](int m, double& f, double& sh) {
+        f = (m == 2 || m == 3) ? (r.coin() ? 1.0 + rlen(r, 0.05, 0.6) : 1.0 - rlen(r, 0.05, 0.5)) : 1.0;
+        sh = (m == 1 || m == 3) ? (r.coin() ? 1 : -1) * rlen(r, 0.02, 0.6) : 0.0;
+    };
+    double fx, sx, fy, sy; pick(mx, fx, sx); pick(my, fy, sy);
+    const double z0 = r.coin() ? 0.0 : rlen(r, 500, 3000), H = rlen(r, 20, 400);
+    const bool fromZero = r.coin();                               // first pillar row/column at 0 (stays put when fanning)
+    V xs(nx + 1), ys(ny + 1), zs(nz + 1);
+    xs[0] = fromZero ? 0.0 : rlen(r, 10, 500); ys[0] = fromZero ? 0.0 : rlen(r, 10, 500); zs[0] = z0;
+    for (int i = 0; i < nx; ++i) xs[i + 1] = xs[i] + rlen(r, 5, 150);
+    for (int j = 0; j < ny; ++j) ys[j + 1] = ys[j] + rlen(r, 5, 150);
+    for (int k = 0; k < nz; ++k) zs[k + 1] = k + 1 == nz ? z0 + H : zs[k] + (z0 + H - zs[k]) * rlen(r, 0.2, 0.8) ;
+    V coord, zcorn(size_t(8) * nx * ny * nz);
+    for (int j = 0; j <= ny; ++j) for (int i = 0; i <= nx; ++i)
+        coord.insert(coord.end(), { xs[i], ys[j], z0, xs[i] * fx + sx * H, ys[j] * fy + sy * H, z0 + H });
+    for (int k = 0; k < nz; ++k) for (int j = 0; j < ny; ++j) for (int i = 0; i < nx; ++i) for (int c = 0; c < 8; ++c)
+        zcorn[zind(nx, ny, i, j, k, c)] = zs[k + (c >> 2)];
+    const std::string kind = std::string("x:") + "vsfb"[mx] + " y:" + "vsfb"[my];
+    st["lean"]++; st["lean." + kind]++;
+    auto px = [&](double x, double z) { const double t = (z - z0) / H; return x + (x * (fx - 1.0) + sx * H) * t; };
+    auto py = [&](double y, double z) { const double t = (z - z0) / H; return y + (y * (fy - 1.0) + sy * H) * t; };
+    bool ok = true; std::string why;
+    try {
+        const EclipseGrid g(std::array<int, 3>{ nx, ny, nz }, coord, zcorn, nullptr);
+        const std::string file = tmp + "/LEAN" + std::to_string(fileNo++) + ".EGRID";
+        g.save(file, false, {}, unitSys(0));
+        EclIO::EGrid eg(file);
+        const double scale = std::fabs(xs[nx] * std::max(fx, 1.0)) + std::fabs(ys[ny] * std::max(fy, 1.0)) + (std::fabs(sx) + std::fabs(sy)) * H + z0 + H;
+        // Single precision of the file: every COORD/ZCORN value is off by up to half a float ulp (6e-8 relative);
+        // a depth error dz moves a corner by slope * dz along the pillar, an error of the pillar's end depths by
+        // |lean| * dz / H = slope * dz as well.  (A float-path tolerance of the comparison with the file reader only.)
+        double slope = 0.0;
+        for (double x : { xs[0], xs[nx] }) for (double y : { ys[0], ys[ny] })
+            slope = std::max(slope, (std::fabs(x * (fx - 1.0) + sx * H) + std::fabs(y * (fy - 1.0) + sy * H)) / H);
+        const double tolz = 1.3e-7 * (z0 + H), tolxy = 1.3e-7 * scale + 4.0 * slope * tolz;
+        for (int k = 0; k < nz && ok; ++k) for (int j = 0; j < ny && ok; ++j) for (int i = 0; i < nx && ok; ++i) {
+            const std::string cell = " cell (" + dims3(i, j, k) + ")";
+            const double za = zs[k], zb = zs[k + 1], ta = (za - z0) / H, tb = (zb - z0) / H;
+            // widths w(t) = w0 (1 + (f-1) t): volume = H * w0x w0y * int_ta^tb (1 + a t)(1 + b t) dt
+            const double a = fx - 1.0, b = fy - 1.0, w0x = xs[i + 1] - xs[i], w0y = ys[j + 1] - ys[j];
+            const double vol = H * w0x * w0y * ((tb - ta) + (a + b) * (tb * tb - ta * ta) / 2.0 + a * b * (tb * tb * tb - ta * ta * ta) / 3.0);
+            const double v = g.getCellVolume(i, j, k);
+            if (!close(v, vol, 1e-9)) { ok = false; why = "volume " + num(v) + ", exact " + num(vol) + cell; break; }
+            A8 X, Y, Z, EX, EY, EZ;
+            corners(g, g.getGlobalIndex(i, j, k), X, Y, Z);
+            eg.getCellCorners(std::array<int, 3>{ i, j, k }, EX, EY, EZ);
+            double cx = 0, cy = 0;
+            for (int c = 0; c < 8 && ok; ++c) {
+                const double z = (c >> 2) ? zb : za, x = px(xs[i + (c & 1)], z), y = py(ys[j + ((c >> 1) & 1)], z);
+                cx += x / 8; cy += y / 8;
+                if (!close(X[c], x, 0, 1e-12 * scale) || !close(Y[c], y, 0, 1e-12 * scale) || !close(Z[c], z, 0, 1e-12 * scale)) { ok = false; why = "corner " + std::to_string(c) + " = (" + num(X[c]) + ", " + num(Y[c]) + ", " + num(Z[c]) + "), construction (" + num(x) + ", " + num(y) + ", " + num(z) + ")" + cell; }
+                else if (!close(X[c], EX[c], 0, tolxy) || !close(Y[c], EY[c], 0, tolxy) || !close(Z[c], EZ[c], 0, tolz)) { ok = false; why = "corner " + std::to_string(c) + ": grid (" + num(X[c]) + ", " + num(Y[c]) + ", " + num(Z[c]) + "), EclIO::EGrid of the saved file (" + num(EX[c]) + ", " + num(EY[c]) + ", " + num(EZ[c]) + ")" + cell; }
+                const auto q = g.getCornerPos(i, j, k, c);
+                if (ok && (!sameBits(q[0], X[c]) || !sameBits(q[1], Y[c]) || !sameBits(q[2], Z[c]))) { ok = false; why = "getCornerPos != getCellCorners" + cell; }
+            }
+            if (!ok) break;
+            const auto ctr = g.getCellCenter(i, j, k);
+            if (!close(ctr[0], cx, 0, 1e-12 * scale) || !close(ctr[1], cy, 0, 1e-12 * scale) || !close(ctr[2], (za + zb) / 2, 0, 1e-12 * scale)) { ok = false; why = "centre (" + num(ctr[0]) + ", " + num(ctr[1]) + ", " + num(ctr[2]) + "), construction (" + num(cx) + ", " + num(cy) + ", " + num((za + zb) / 2) + ")" + cell; break; }
+            if (!close(g.getCellDepth(i, j, k), (za + zb) / 2, 0, 1e-12 * scale)) { ok = false; why = "depth" + cell; break; }
+            if (!close(g.getCellThickness(i, j, k), zb - za, 1e-9)) { ok = false; why = "thickness" + cell; break; }
+            st["lean.cells"]++;
+        }
+        // the reloaded grid has the same cells (within single precision of the file)
+        if (ok) {
+            const EclipseGrid h(file);
+            for (size_t gi = 0; gi < g.getCartesianSize() && ok; ++gi) {
+                const auto dm = g.getCellDims(gi);
+                const double rel = 2.0 * (tolxy / dm[0] + tolxy / dm[1] + 2.0 * tolz / dm[2]);
+                if (!close(g.getCellVolume(gi), h.getCellVolume(gi), rel)) { ok = false; why = "volume after save/load " + num(g.getCellVolume(gi)) + " vs " + num(h.getCellVolume(gi)) + " cell " + std::to_string(gi); }
+            }
+        }
+    } catch (const std::exception& e) { ok = false; why = std::string("exception ") + typeid(e).name(); }
+    if (ok) log.ok(); else log.fail("lean_pillars", kind + " " + dims3(nx, ny, nz) + " " + why + " coord=" + hexV(coord) + " zcorn=" + hexV(zcorn));
+}
+
 int main(int argc, char** argv) {
     if (argc < 5) { std::cerr << "usage: grid corr|prop|vols <seed> <tier> <outdir>\n"; return 2; }
     const std::string mode = argv[1];
@@ -1640,6 +2161,10 @@ int main(int argc, char** argv) {
             emitGridunit(sink, rng, thorough ? 5 : 4, tmp, fileNo);
             emitMapaxes(sink, rng);
             emitHardCP(sink, rng, maxn, tmp, fileNo, round);
+            // (11) fourth round: TOPS for several layers, numerical-aquifer cells, bottom normal / validity
+            for (int t = 0; t < 3; ++t) emitTops(sink, rng, thorough ? 5 : 4);
+            for (int t = 0; t < 2; ++t) emitAqu(sink, rng, thorough ? 5 : 4);
+            emitNormal(sink, rng, maxn);
             // (8) calculateCellVol on arbitrary (twisted) hexahedra and on their k-halves
             for (int t = 0; t < 10; ++t) {
                 A8 X, Y, Z;
@@ -1928,6 +2453,14 @@ int main(int argc, char** argv) {
                 propMapaxes(log, st, rng, tmp, fileNo);
                 propHardCP(log, st, rng, thorough ? 7 : 5, tmp, fileNo);
             }
+            // P13-P15 (fourth round)
+            bool gapReported = false;
+            for (int t = 0; t < 3 * n3; ++t) propTops(log, st, rng, thorough ? 6 : 5, gapReported);
+            for (int t = 0; t < n3; ++t) {
+                propAqu(log, st, rng, thorough ? 6 : 5, tmp, fileNo);
+                propNormal(log, st, rng, thorough ? 6 : 5);
+            }
+            for (int t = 0; t < 2 * n3; ++t) propLean(log, st, rng, thorough ? 5 : 4, tmp, fileNo);
         }
         // P5: thread-count independence, observed: re-exec with OMP_NUM_THREADS = 1, 4, 16 and compare bits
         if (indexBroken) {
